@@ -1,6 +1,7 @@
 (* C15/Witness.v — non-vacuity of the theorems' hypotheses and concrete witnesses (vm_compute). *)
 From Verif Require Import Common.Base.
 From Verif Require Import Generated.C15Recv Generated.C15GrpcExp Generated.C15HttpExp Generated.C15StatusUtil.
+From Verif Require Import Generated.C15Shutdown Generated.C15RecvHttpGraph.
 From Verif Require Import C15.Model C15.Proofs C15.Properties.
 Local Open Scope Z_scope.
 
@@ -100,3 +101,31 @@ Example full_table :
    (13, (false, false, 500, false)); (14, (true, true, 503, true)); (15, (true, true, 503, true));
    (16, (false, false, 401, false))].
 Proof. vm_compute. reflexivity. Qed.
+
+(* shutdown: the hypotheses of shutdown_drains_inflight are satisfiable (the documented library semantics), an
+   instance on every transport, and what a non-draining library would give *)
+Example shutdown_hyps_inhabited :
+  documented_lib HttpShutdown = true /\ documented_lib GrpcGracefulStop = true /\
+  documented_lib HttpClose = false /\ documented_lib GrpcStop = false.
+Proof. repeat split. Qed.
+
+Example shutdown_instances :
+  hop_at InFlightAtShutdown Grpc NoAuth 3 Accept = mkHop true Success None /\
+  hop_at InFlightAtShutdown HttpPb NoAuth 3 PermanentErr = hop HttpPb NoAuth 3 PermanentErr /\
+  hop_at InFlightAtShutdown HttpJson NoAuth 3 (StatusErr 8 (Some 2000000000) WNone) = mkHop true (Throttle 2000000000) (Some 8) /\
+  hop_at AfterShutdown Grpc NoAuth 3 Accept = mkHop false Retryable (Some 14) /\
+  hop_at AfterShutdown HttpJson NoAuth 3 Accept = mkHop false Retryable None /\
+  hop_at_lib (fun _ => false) InFlightAtShutdown Grpc NoAuth 3 Accept = mkHop true Retryable (Some 14).
+Proof. vm_compute. repeat split. Qed.
+
+(* the dumped graphs are not trivial: a few of their lines *)
+Definition has_line (c : nat * (list Z * list Z)) (g : list (nat * (list Z * list Z))) : bool :=
+  existsb (fun x => Nat.eqb (fst x) (fst c) && list_eqb Z.eqb (fst (snd x)) (fst (snd c))
+                    && list_eqb Z.eqb (snd (snd x)) (snd (snd c))) g.
+
+Example dump_lines :
+  has_line (1%nat, ([429; 1; 1500000000], [429; 1; 1])) recvhttp_graph = true /\
+  has_line (2%nat, ([0; 0], [405])) recvhttp_graph = true /\
+  has_line (3%nat, ([2; 401], [500; 13])) recvhttp_graph = true /\
+  has_line (4%nat, ([0; -1; 400; 0; 0], [400; 0; 0; 3])) recvhttp_graph = true.
+Proof. vm_compute. repeat split. Qed.
